@@ -1937,7 +1937,15 @@ impl KotoVm {
             self,
             RemainderAssign,
             remainder_assign,
-            |a: &KNumber, b: &KNumber| a % b,
+            |a: &KNumber, b: &KNumber| {
+                if matches!(b, KNumber::I64(0)) {
+                    // Match the behaviour of the `%` operator for integer remainder when the
+                    // divisor is zero, avoiding a panic and producing NaN instead.
+                    KNumber::from(f64::NAN)
+                } else {
+                    a % b
+                }
+            },
             lhs,
             rhs
         )
